@@ -35,7 +35,7 @@ CLAIMED = {
     technique="Kani harnesses (complete: loop-free or concrete) on compiled code + Verus contracts on a block, a statement tail and a function extracted from the parser",
     design="2/C08"),
  "C20": dict(
-    text="Proof that span containment is total and trichotomous and is_macro_expanded exact (Kani, full u32 domain); that FindVisitor::select_spanned, for ANY number of ordered siblings and any cursor, terminates without panic and selects the first containing sibling / the right neighbour (Verus, unbounded, with Kani instances N = 1..4 as bounded twins on the compiled code); and that visit_one and the tuple-pattern arm of visit_pattern never panic, including on an empty sibling list. Found and repaired the empty-array panic and the unit-pattern panic.",
+    text="Proof that span containment is total and trichotomous and is_macro_expanded exact (Kani, full u32 domain); that FindVisitor::select_spanned, for ANY number of ordered siblings and any cursor, terminates without panic and selects the first containing sibling / the right neighbour (Verus, unbounded, with Kani instances N = 1..4 as bounded twins on the compiled code); and that visit_one and the tuple-pattern arm of visit_pattern never panic, including on an empty sibling list, nor does the as-pattern arm of Suggest::on_pattern on an ill-typed pattern. Found and repaired the empty-array panic and the unit-pattern panic.",
     note="Verus side: Peekable over the sibling list modelled with std's peek/next semantics, the span closure as a field read, Span::containment's contract taken from the Kani proof. AST traversal (visit_expr/visit_pattern), suggestion scoping, type agreement, signature_help and metadata queries are not under contract.",
     technique="Kani harnesses on compiled code + Verus contract with inductive loop invariant on the extracted body",
     design="2/C20"),
